@@ -27,7 +27,9 @@ class C17(BaseCheck):
   ID = 'C17'
   RULE = ('case = (combinator, n, success/failure assignment); inside a case every subset '
           'completed before the call (in every order) x every completion order of the rest is '
-          'executed for n<=4 (quick) / n<=7 (thorough), sampled for larger n; Unwrap chains of '
+          'executed for n<=4 (quick) / n<=7 (thorough), sampled for larger n, each with the remaining completions one per '
+          'tick and grouped into ticks without a yield in between (every grouping for n<=3, sampled above), also with the first '
+          'tick right after the call; Unwrap chains of '
           'depth 0-6 with failure at each level and every completion order; ContinueWith/Map '
           'with raising continuations (Exception, a BaseException subclass, gevent.Timeout), before/after completion, on_hub or not. The spec is '
           'evaluated after every completion step with the loop run to idle. non-trivial = at '
@@ -36,7 +38,8 @@ class C17(BaseCheck):
              'scales.asynchronous:AsyncResult._UnwrapHelper',
              'scales.asynchronous:AsyncResult.ContinueWith', 'scales.asynchronous:AsyncResult.Map')
   REQUIRED_ANCHORS = ANCHORS
-  REQUIRED_CLASSES = ('WhenAll', 'WhenAny', 'Unwrap', 'ContinueWith', 'Map')
+  REQUIRED_CLASSES = ('WhenAll', 'WhenAny', 'Unwrap', 'ContinueWith', 'Map', 'several-completions-per-tick',
+                      'completion-right-after-call')
   ASSUMPTIONS = ('n = 0 inputs is not judged (the statement is vacuous there)',
                  'WhenAny with several inputs already successful at call time may yield any of them')
   QUICK_WALL = 180
@@ -159,32 +162,63 @@ class C17(BaseCheck):
         outcomes = b
         orders = list(_perms_with_pre(n))
       for pre, post in orders:
-        ars = [AsyncResult() for _ in range(n)]
-        for i in pre:
-          self._complete(ars[i], i, outcomes[i])
-        env.settle()
-        ret = AsyncResult.WhenAll(ars) if kind == 'WhenAll' else AsyncResult.WhenAny(ars)
-        env.settle()
-        ctx = {'n': n, 'outcomes': outcomes, 'pre': list(pre), 'post': list(post),
-               'pre_failed': any(outcomes[i] == 'F' for i in pre)}
-        done = list(pre)
-        post_done = []
-        bad = False
-        for step in range(len(post) + 1):
-          if kind == 'WhenAll':
-            spec = self._when_all_spec(done, outcomes, n)
+        # how the remaining completions are grouped into ticks (no yield to the hub inside a tick):
+        # one per tick always; for small n every grouping, otherwise a few, each also with the first
+        # tick following the call without a yield in between
+        m = len(post)
+        groupings = [(tuple((i,) for i in post), True)]
+        if m >= 1:
+          if n <= 3:
+            cuts_list = list(itertools.product((0, 1), repeat=m - 1))
           else:
-            spec = self._when_any_spec(pre, post_done, outcomes, n)
-          ctx['after_step'] = step
-          if not self._check(out, kind, spec, self._observe(ret), dict(ctx)):
-            bad = True
-            break
-          if step < len(post):
-            i = post[step]
+            cuts_list = [tuple(0 for _ in range(m - 1))] + [tuple(rng.randint(0, 1) for _ in range(m - 1)) for _ in range(2)]
+          for cuts in cuts_list:
+            groups, cur = [], [post[0]]
+            for j, cut in enumerate(cuts):
+              if cut:
+                groups.append(tuple(cur))
+                cur = []
+              cur.append(post[j + 1])
+            groups.append(tuple(cur))
+            for yield_after_call in (True, False):
+              if all(len(g_) == 1 for g_ in groups) and yield_after_call:
+                continue      # the plain one-per-tick history is already in the list
+              groupings.append((tuple(groups), yield_after_call))
+        bad = False
+        for groups, yield_after_call in groupings:
+          ars = [AsyncResult() for _ in range(n)]
+          for i in pre:
             self._complete(ars[i], i, outcomes[i])
-            done.append(i)
-            post_done.append(i)
-            env.settle()
+          env.settle()
+          ret = AsyncResult.WhenAll(ars) if kind == 'WhenAll' else AsyncResult.WhenAny(ars)
+          ctx = {'n': n, 'outcomes': outcomes, 'pre': list(pre), 'post': list(post), 'ticks': [list(g_) for g_ in groups],
+                 'yield_after_call': yield_after_call, 'pre_failed': any(outcomes[i] == 'F' for i in pre)}
+          done = list(pre)
+          post_done = []
+          if any(len(g_) > 1 for g_ in groups):
+            out.classes = sorted(set(out.classes) | {'several-completions-per-tick'})
+          if not yield_after_call:
+            out.classes = sorted(set(out.classes) | {'completion-right-after-call'})
+          for step in range(len(groups) + 1):
+            if step > 0 or yield_after_call:
+              if step == 0:
+                env.settle()
+              if kind == 'WhenAll':
+                spec = self._when_all_spec(done, outcomes, n)
+              else:
+                spec = self._when_any_spec(pre, post_done, outcomes, n)
+              ctx['after_step'] = step
+              if not self._check(out, kind, spec, self._observe(ret), dict(ctx)):
+                bad = True
+                break
+            if step < len(groups):
+              for i in groups[step]:
+                self._complete(ars[i], i, outcomes[i])
+                done.append(i)
+                post_done.append(i)
+              env.settle()
+          if bad and len(out.violations) > 5:
+            break
         if bad and len(out.violations) > 5:
           break
       out.sig = (kind, n, outcomes)
